@@ -45,10 +45,13 @@ OPS = [
 OPS = [o for o in OPS if o[1] not in (".or_insert", ".starts_with_none(") and not o[1].startswith("let _ = Ok")]
 
 
+SOURCE = REPO  # where candidate lines are read from (the clean scratch worktree while a run is going on)
+
+
 def production_lines(path):
     """(line number, text) of lines outside #[cfg(test)] modules, comments, log calls and attribute lines"""
     out = []
-    text = open(os.path.join(REPO, path)).read().split("\n")
+    text = open(os.path.join(SOURCE, path)).read().split("\n")
     in_test = False
     depth = 0
     test_depth = None
@@ -183,6 +186,10 @@ def run(slot, first, count, scale):
                 pass
     env = dict(os.environ, CARGO_NET_OFFLINE="true", DLTVERIF_REPO=wt, DLTVERIF_OUT="/tmp/mt/autoout%s" % slot, DLTVERIF_SCALE=str(scale), CARGO_BUILD_JOBS="6")
     os.makedirs(env["DLTVERIF_OUT"], exist_ok=True)
+    # (read the candidate lines from the clean worktree, not from /repo: an official mutant trial may have /repo patched)
+    global SOURCE
+    sh("git checkout -q -- .", cwd=wt)
+    SOURCE = wt
     cands = candidates()
     for m in cands[first:first + count]:
         if m["id"] in done:
